@@ -27,17 +27,18 @@ Import ListNotations.
 Open Scope Z_scope.
 
 (** Recorded findings (same keys as known-findings.txt; `<lang>:<Instruction>`):
-    - moonbit:S8FromI32 / moonbit:S16FromI32 — emitted as `(x - 0x100)` / `(x - 0x10000)`;
+    - (moonbit:S8FromI32 / moonbit:S16FromI32 — emitted as `(x - 0x100)` / `(x - 0x10000)` — were repaired in
+      /repo by a `fix:` commit and are no longer excluded: the regenerated sites are proved correct);
     - rust:BoolFromI32 — `bool_lift(x as u8)`: only the low 8 bits are tested (0x100 lifts to
       false) and debug builds panic on 2..255, where convert_int_to_bool says "any non-zero". *)
 Definition known_keys : list string :=
-  ["moonbit:S8FromI32"; "moonbit:S16FromI32"; "rust:BoolFromI32"]%string.
+  ["rust:BoolFromI32"]%string.
 Definition known (c : conv) : bool := existsb (String.eqb (conv_key c)) known_keys.
 
 (** C14_full (the property as stated, no exclusions):
       Forall conv_ok all_conversions.
     It is FALSE of the current generators: GeneratedProps.v proves [~ conv_ok c] for each site of
-    the three known classes (theorems C14_<site>_refuted, each with its concrete input). *)
+    the known class (theorems C14_<site>_refuted, each with its concrete input). *)
 
 (** Meta-theorem 1: the abstract evaluator is sound on every input of the assumed type. *)
 Theorem C14_norm_sound : forall dt e s, norm dt e = Some s ->
